@@ -639,6 +639,10 @@ fn oracle_c07(rep: &mut Report, c: &Case, spec: &openapiv3::OpenAPI, h: &hir::Hi
     }
 }
 
+pub fn count_operations(doc: &Value) -> usize {
+    doc["paths"].as_object().map(|p| p.values().map(|item| ["get", "put", "post", "delete", "options", "head", "patch", "trace"].iter().filter(|m| item.get(**m).is_some()).count()).sum()).unwrap_or(0)
+}
+
 // ---- C05 oracle --------------------------------------------------------------------------------
 
 /// declared inputs of an operation, from the OpenAPI meaning: (name, location, required)
